@@ -7,7 +7,7 @@
    implemented: C12_at_most_one_bundle_refuted.  Both witnesses are replayed on the implementation
    on every run and are recorded as a known finding.  Everything else is proved. *)
 From Coq Require Import List String NArith Bool.
-From DM Require Import Model.Diamond Proofs.DiamondProofs.
+From DM Require Import Model.Diamond Proofs.DiamondProofs Proofs.DiamondSerial.
 Import ListNotations.
 Open Scope list_scope.
 
@@ -37,6 +37,15 @@ Theorem C12_late_commit_writes_no_bundle : forall es i st t c w, d_term st = Som
   forall srcs, ~ In (i, srcs) (d_bundles (run es st)).
 Proof. exact late_commit_writes_no_bundle. Qed.
 Print Assumptions C12_late_commit_writes_no_bundle.
+
+(* ... so that commits that do not overlap - each runs from its first to its last step with no other
+   actor in between and without crashing - produce at most one bundle, whatever split runs and
+   cancellations (and their crashes) do around them. *)
+Theorem C12_serial_commits_one_bundle : forall items actors, all_fresh actors ->
+  items_ok_run items (init actors) ->
+  List.length (d_bundles (fold_left apply_item items (init actors))) <= 1.
+Proof. exact serial_commits_one_bundle. Qed.
+Print Assumptions C12_serial_commits_one_bundle.
 
 (* Commits, cancellations and new split runs are refused once the diamond is done or canceled: the
    actor's first access is refused, it writes nothing and takes no further step. *)
